@@ -413,10 +413,16 @@ def run_torch_tool(ns, env, options, hooks=None):
                 sys.modules[k] = v
 
 
+def uid(u, n):
+    """utterance id of map line u: NOT in lexicographic order (utt1, utt2, ..., utt0), so that file order, sorted order and
+    list position are distinguishable"""
+    return 'utt%d' % ((u + 1) % n) if n > 1 else 'utt0'
+
+
 def make_options(env, seed, channel, manifest, num_workers=0):
     class Map(list):
         name = 'map'
-    lines = Map('utt%d path%d\n' % (u, u) for u in range(env.nutt))
+    lines = Map('%s path%d\n' % (uid(u, env.nutt), u) for u in range(env.nutt))
     return types.SimpleNamespace(map=lines, computer_config=({'c': 1} if env.comp else None), dir='out', channel=channel,
                                  preprocess=[('pre', i) for i in range(env.npre)], postprocess=[('post', i) for i in range(env.npost)],
                                  force_as=None, seed=seed, file_prefix='', file_suffix='.pt', num_workers=num_workers, manifest=manifest)
@@ -472,12 +478,15 @@ def run_torch(cfg):
         if rc != 0:
             return ('exit code', rc)
         # every signal is read through read_signal(path, dtype=float64, force_as=<--force-as>, key=<utterance id>)
-        want_reads = [('path%d' % u, 'f64', None, 'utt%d' % u) for u in range(env.nutt)]
-        if env.read_args != want_reads:
+        want_reads = [('path%d' % u, 'f64', None, uid(u, env.nutt)) for u in range(env.nutt)]
+        if sorted(env.read_args, key=str) != sorted(want_reads, key=str):
             return ('read_signal arguments', str(env.read_args)[:200])
-        if [p for p, _ in saved] != ['out/utt%d.pt' % u for u in range(env.nutt)]:
+        if sorted(p for p, _ in saved) != sorted('out/%s.pt' % uid(u, env.nutt) for u in range(env.nutt)):
             return ('files', [p for p, _ in saved])
-        for u, (p, t) in enumerate(saved):
+        by_name = dict(saved)
+        for u in range(env.nutt):
+            p = 'out/%s.pt' % uid(u, env.nutt)
+            t = by_name[p]
             if decide(t != spec_term(env, u, seed_z, ch, env.mono_1d)):
                 return ('value', p, str(t)[:300])
         if has_seed:
